@@ -157,10 +157,7 @@ def record(dbpath: Path, run: dict[str, Any], allow_silence_in_state: bool) -> d
                 reply = wire[n0][2] if len(wire) > n0 else None
                 out["transcript"].append((b, reply, not default_state))
                 prev = b
-                if reply is not None and len(reply) >= 2 and reply[0] == 0x67 and reply[1] % 2 == 1:
-                    last_seed = (reply[1], reply[2:])
-                elif b[0] != 0x3E:
-                    last_seed = None
+                last_seed = vecu.next_last_seed(last_seed, b, reply)
         finally:
             await db.disconnect()
             await server.teardown()
